@@ -25,7 +25,7 @@ ASSUMPTIONS = ['shift/scale relations are judged to 2 float32 ulp of |bkg|+|c| b
                'and only the final float32 cast differs',
                '3-sigma clipping iterated to its fixed point lowers the rms of Gaussian data to 0.985 s; the '
                'Gaussian clause is judged on the median of the maps with an 8-sigma sampling band']
-MIN_COUNTERS = {'runs_ok': 30, 'shift_relations': 5, 'scale_relations': 5, 'masked_pixels_checked': 50,
+MIN_COUNTERS = {'reuse_pairs_compared': 2, 'runs_ok': 30, 'shift_relations': 5, 'scale_relations': 5, 'masked_pixels_checked': 50,
                 'far_pixels_checked': 1000, 'constant_images': 2, 'gauss_images': 1}
 BATCHES_PER_JOB = 4
 
@@ -142,6 +142,12 @@ def cases(seed, tier):
         out.append({'kind': 'bscale', 'shape': [rows, cols], 'seed': [seed, 'bs', i], 'grid': [g, g], 'box': [4 * g, 4 * g],
                     'cores': int(rng.choice([1, 2])), 'bscale': float(2.0 ** rng.integers(-3, 4)) or 2.0,
                     'raw': str(rng.choice(['float32', 'int16']))})
+    n_r = 4 if tier == 'quick' else 40
+    for i in range(n_r):
+        rows, cols = int(rng.integers(10, 70)), int(rng.integers(10, 70))
+        g = int(rng.integers(2, 9))
+        out.append({'kind': 'reuse', 'shape': [rows, cols], 'seed': [seed, 'reuse', i], 'grid': [g, g], 'box': [4 * g, 4 * g],
+                    'cores': int(rng.choice([1, 2])), 'change': ['bscale', 'naxis', 'content', 'shape'][i % 4]})
     n_f = 4 if tier == 'quick' else 30
     for i in range(n_f):
         rows, cols = int(rng.integers(20, 90)), int(rng.integers(20, 90))
@@ -427,6 +433,52 @@ def run(case):
                     o.violate('bscale_image_differs_from_physical', {'raw_dtype': case['raw'], 'bscale': bs, 'config': base,
                                                                     'max_dbkg': float(np.nanmax(np.abs(a[0] - b[0])))})
             o.sample = {'raw': case['raw'], 'bscale': bs}
+        elif kind == 'reuse':
+            # two calls in ONE process on the SAME path whose content changed in between: the second answer must be the
+            # one a fresh process gives for the new content (no per-name memory of header, scaling, shape)
+            rng = rng_for(*case['seed'])
+            rows, cols = case['shape']
+            a = (np.round(rng.normal(3, 2, (rows, cols)) * 256) / 256).astype(F32)
+            b = (np.round(rng.normal(-40, 5, (rows, cols)) * 256) / 256).astype(F32)
+            first, second = os.path.join(sc, 'first.fits'), os.path.join(sc, 'second.fits')
+            shape2 = [rows, cols]
+            ch = case['change']
+            if ch == 'bscale':
+                _write_bscale(first, a, 2.0)
+                _write_bscale(second, a, 0.25)
+            elif ch == 'naxis':
+                bh.write_fits(first, a)
+                bh.write_fits(second, np.stack([b, a]), extra_axes=0)          # a cube whose plane 0 is b
+            elif ch == 'shape':
+                bh.write_fits(first, a)
+                b = b[: max(6, rows // 2), : max(6, cols - 3)]
+                shape2 = list(b.shape)
+                bh.write_fits(second, b)
+            else:
+                bh.write_fits(first, a)
+                bh.write_fits(second, b)
+            target = os.path.join(sc, 'same_name.fits')
+            specs = [dict(base, k=0, image=target, copy_from=first, shape=[rows, cols], save=os.path.join(sc, 'r0')),
+                     dict(base, k=1, image=target, copy_from=second, shape=shape2, save=os.path.join(sc, 'r1'))]
+            res = _run(specs, sc)
+            fresh = [dict(base, k=2, image=second, shape=shape2, save=os.path.join(sc, 'r2'))]
+            res.update(_run(fresh, sc))
+            o.n_eval += 3
+            o.n_nontrivial += 1
+            if res[1]['status'] != 'ok' or res[2]['status'] != 'ok' or res[0]['status'] != 'ok':
+                for k in (0, 1, 2):
+                    if res[k]['status'] != 'ok':
+                        o.violate('raises', {'what': 'same path, content changed (%s), run %d' % (ch, k), 'config': base,
+                                             'exception': res[k].get('exc')}, _mech_exc(res[k]))
+            else:
+                o.count('runs_ok', 3)
+                o.count('reuse_pairs_compared')
+                x, y = _maps(specs[1]), _maps(fresh[0])
+                if x[0].shape != y[0].shape or not (x[0].tobytes() == y[0].tobytes() and x[1].tobytes() == y[1].tobytes()):
+                    o.violate('second_call_on_same_path_differs_from_fresh_process', {
+                        'changed': ch, 'config': base, 'shape_second': list(x[0].shape), 'shape_fresh': list(y[0].shape),
+                        'median_bkg_second': float(np.nanmedian(x[0])), 'median_bkg_fresh': float(np.nanmedian(y[0]))})
+            o.sample = {'changed': ch, 'config': base}
         elif kind == 'files':
             from astropy.io import fits
             img = make_image(case['image'])
